@@ -268,6 +268,14 @@ def cases(rng: random.Random, tier: str):
         for _ in range(3 if long_tuple else per_tree):
             text = gen_derived(rng, root) if rng.random() < 0.7 else gen_xpath(rng)
             yield one(rng, root, env, toks, nodes, text, desc)
+        if it % 4 == 0:
+            # the root is stored in NO field: an absolute first step that names a field (in particular the field name
+            # of whatever wrapper the implementation puts around the root) or an index matches nothing
+            rc = type(root).__name__
+            kid = next((type(c).__name__ for c in nodes[1:]), "Leaf")
+            for text in (f"/@child {rc}", f"/@child[0]{rc}", f"/@child {rc}//{kid}", f"/@root {rc}", f"/@child Expr/{kid}",
+                         f"/[0]{rc}", f"/@child ASTNode"):
+                yield one(rng, root, env, toks, nodes, text, desc)
         if long_tuple:
             n_items = len(root.items)
             for i in (256, 257, 258, n_items - 1):
